@@ -382,6 +382,11 @@ func runProperty(repo, verif, prop string, cfg *PropCfg, tier string, overlay ma
 	}
 	// expected obligations (fail closed if the generator produced fewer labelled obligations than it is known to need)
 	for n := range exp[prop] {
+		// frame obligations exist only for components a function happens to write: their presence follows the code, not
+		// the contract, so a harmless refactoring may add or remove them; they are not part of the expected set
+		if strings.Contains(n, "#modifies:") {
+			continue
+		}
 		if byName[n] == nil && overlay == nil {
 			res.Missing = append(res.Missing, n)
 		}
